@@ -77,6 +77,7 @@ def c12_jobs(tier):
         # the number-token scanner has a separate character class in NaN / Infinity builds
         Job('deser-nan-inf', 'c12', 'deser', q(tier, 100000, 5000000), defines={'ARDUINOJSON_ENABLE_NAN': 1, 'ARDUINOJSON_ENABLE_INFINITY': 1, 'ARDUINOJSON_ENABLE_COMMENTS': 1}),
         Job('print-float-cfg', 'c12', 'print-f64', q(tier, 5000, 200000), defines={'ARDUINOJSON_USE_DOUBLE': 0}),
+        Job('print-thresholds', 'c12', 'print-f64', q(tier, 10000, 500000), flavour='asan2', defines={'ARDUINOJSON_POSITIVE_EXPONENTIATION_THRESHOLD': '1e3', 'ARDUINOJSON_NEGATIVE_EXPONENTIATION_THRESHOLD': '1e-2'}),
     ]
 
 
@@ -189,6 +190,8 @@ def c02_jobs(tier):
         Job('default', 'c02', 'gen', q(tier, 60000, 2000000)),
         Job('arduino', 'c02', 'gen', q(tier, 30000, 800000), shim=True),
         Job('float-small', 'c02', 'gen', q(tier, 20000, 600000), defines={'ARDUINOJSON_USE_DOUBLE': 0, 'ARDUINOJSON_STRING_LENGTH_SIZE': 1, 'ARDUINOJSON_SLOT_ID_SIZE': 1}),
+        # other switch-over points between plain and exponent notation, tab indentation
+        Job('thresholds-tab', 'c02', 'gen', q(tier, 20000, 600000), defines={'ARDUINOJSON_POSITIVE_EXPONENTIATION_THRESHOLD': '1e3', 'ARDUINOJSON_NEGATIVE_EXPONENTIATION_THRESHOLD': '1e-2', 'ARDUINOJSON_TAB': '"\\t"'}),
     ]
 
 
